@@ -106,6 +106,7 @@ def run_case(case):
     """case = [kind, ansi, method, verbosity, flags, quiet, prefill] -> violation or None"""
     kind, ansi, meth, verbosity, flags, quiet, prefill = case[:7]
     split = len(case) > 7 and case[7]
+    text = case[8] if len(case) > 8 else "msg"
     recv, streams, is_section = receiver_kinds()[kind](ansi)
     outs = [recv] if not hasattr(recv, "error_output") else [recv.output, recv.error_output]
     # sections are pre-filled (while loud) so that clear/overwrite have something to act on
@@ -126,11 +127,11 @@ def run_case(case):
     params = inspect.signature(fn).parameters
     try:
         if "flags" in params:
-            fn("msg", flags=flags)
+            fn(text, flags=flags)
         elif meth == "clear":
             fn()
         else:
-            fn("msg")
+            fn(text)
     except Exception as e:
         return report.viol("crash:" + report.exc_site(e), "%s.%s raised %r" % (kind, meth, e), case)
     after = [s.fetch() for s in streams]
@@ -140,7 +141,8 @@ def run_case(case):
         should = False  # nothing to clear / plain outputs ignore clear: must stay silent
     if wrote != should:
         side = "leak" if wrote else "lost"
-        sig = "%s:%s.%s:%s%s" % (side, "section" if is_section else "plain-recv", meth, "ansi" if ansi else "plain", ":other-output-differs" if split else "")
+        sig = "%s:%s.%s:%s%s%s" % (side, "section" if is_section else "plain-recv", meth, "ansi" if ansi else "plain",
+                                   ":other-output-differs" if split else "", ":empty-text" if text == "" else "")
         return report.viol(sig, "%s.%s(flags=%r) at verbosity %d quiet=%s ansi=%s: wrote=%s, gate says %s" % (
             kind, meth, flags, verbosity, quiet, ansi, wrote, should), case, should, {"wrote": wrote, "delta": [a[len(b):] if a.startswith(b) else a for a, b in zip(after, before)]})
     return None
@@ -160,6 +162,9 @@ def cases():
                     out.append([kind, ansi, meth, v, f, q, pf])
                     if hasattr(recv, "error_output") and meth != "clear":
                         out.append([kind, ansi, meth, v, f, q, pf, True])
+                    if "line" in meth and not is_section:
+                        # an empty line: the text is "" but a line break reaches the stream - gated like any other write
+                        out.append([kind, ansi, meth, v, f, q, pf, False, ""])
     return out
 
 
